@@ -23,10 +23,33 @@ def _gen_tlc(work, maxn, allorders, o: Outcome):
     return [g for g in r.printed if isinstance(g, dict) and 'adj' in g]
 
 
+def _r3_tarjan(work, tier, o: Outcome):
+    """R3: the Tarjan machine (spec/Tarjan.tla) refines the definitional Scc module on every digraph
+    of the bound, every adjacency iteration order and (thorough) every key order; TLC checks the
+    machine's invariants in every state of every behaviour."""
+    invs = ['StackIsVisitedMinusEmitted', 'StackOrderedByIndex', 'LowBelowIdx', 'FramesOnStack', 'FramesArePath',
+            'EmittedAreComponents', 'FinalOK', 'RunAgrees', 'Terminates']
+    cfg = ('INIT Init\nNEXT Next\nCONSTANTS MaxN = 3\nAllOrders = TRUE\n'
+           f'AllRoots = {"TRUE" if tier == "thorough" else "FALSE"}\n'
+           + ''.join(f'INVARIANT {i}\n' for i in invs) + 'CHECK_DEADLOCK FALSE\n')
+    r = run_tlc(work / 'tarjan', 'MC_Tarjan', cfg, workers=8, heap='4g', decode=False)
+    o.add_tlc(r)
+    o.extra['tarjan_machine_states'] = r.states
+    o.extra['tarjan_machine_invariants'] = invs
+
+
 def _drive_scc(g, order):
     from fggs.utils import scc
     n = g['n']
-    d = {}
+    visits = []
+
+    class Logged(dict):
+        """the adjacency mapping, logging every read of g[v]: the code reads it once per visit(v),
+        so this is the entry order of the depth-first search, observed without touching the code"""
+        def __getitem__(self, k):
+            visits.append(k)
+            return dict.__getitem__(self, k)
+    d = Logged()
     for v in order:
         d[v] = {w: None for w in g['adj'][v - 1]}
     try:
@@ -34,9 +57,9 @@ def _drive_scc(g, order):
             warnings.simplefilter('ignore')
             comps = scc(d)
         return {'kind': 'scc', 'g': g, 'order': list(order), 'out': 'ok',
-                'comps': [list(c) for c in comps]}
+                'comps': [list(c) for c in comps], 'visits': visits}
     except Exception as e:  # noqa
-        return {'kind': 'scc', 'g': g, 'order': list(order), 'out': 'raise:' + type(e).__name__, 'comps': []}
+        return {'kind': 'scc', 'g': g, 'order': list(order), 'out': 'raise:' + type(e).__name__, 'comps': [], 'visits': visits}
 
 
 def _nt_case(stage, ng, keys):
@@ -121,6 +144,7 @@ def run(tier, seed):
                      'exhaustive part bounded by the vertex bound stated in coverage.bounds']
     o.extra['bounds'] = {'tlc_vertices': 3 if tier == 'quick' else 4, 'random_vertices': 8}
     with Scratch() as work:
+        _r3_tarjan(work, tier, o)
         cases = _cases(tier, seed, work, o)
         verdicts, st, tr, _ = judge_batch(work / 'judge', 'Trace_Scc', cases, per_shard_min=400)
         o.states += st
@@ -128,6 +152,8 @@ def run(tier, seed):
         o.absorb_verdicts(cases, verdicts, load_findings())
         for c in cases[:1] + cases[-1:]:
             o.sample(c)
+        o.extra['tarjan_model_drift'] = sum(1 for v in verdicts.values() if v.get('drift', 'none') != 'none')
+        o.extra['tarjan_runs_replayed'] = sum(1 for c in cases if c['kind'] == 'scc' and c['out'] == 'ok')
         nontriv = sum(1 for c in cases if c['kind'] == 'scc' and any(len(x) > 1 for x in c['comps']))
         o.extra['cases_with_nontrivial_component'] = nontriv
     return o
